@@ -93,7 +93,7 @@ func runDecoder(c *nd.Ctx, dec int, before, errXML, family string) nd.Result {
 }
 
 // shapesBody: the explicit product of <error/> shapes.
-func shapesBody() nd.Body {
+func shapesBody(maxTexts int) nd.Body {
 	langs := []string{absent, "en", "de"}
 	return func(c *nd.Ctx) nd.Result {
 		dec := c.Choose(len(decoderNames), "decoder")
@@ -128,7 +128,7 @@ func shapesBody() nd.Body {
 		case 4:
 			kids = append(kids, `<see-other-host xmlns="`+condNS+`">example.org:5222</see-other-host>`)
 		}
-		ntext := c.Choose(4, "texts")
+		ntext := c.Choose(maxTexts+1, "texts")
 		for i := 0; i < ntext; i++ {
 			t := `<text xmlns="` + textNS + `"`
 			if l := langs[c.Choose(3, "xml:lang")]; l != absent {
